@@ -211,4 +211,10 @@ Proof. intros Hc Hl Hl' H1 H2. apply sig_verify_iff in H1, H2. simpl in *.
   transitivity (fst s * (pk_x2 pk + (pk_g2 pk * ext (c - c') rbf rbf' + ip (pk_y2s pk) (map2 (ext (c - c')) rs rs')))
                 - fst s * ext (c - c') rbf rbf' * pk_g2 pk); [ring|]. rewrite P1. ring. Qed.
 
+
+(** the one challenge a given proof can be accepted under is a function of the proof and the parameters *)
+Theorem accepting_challenge_formula (h : K) gs (p : cproof K) c : cp_C p <> f0 ->
+  cp_verify h gs p c = true -> c = (commit h gs (cp_rs p) (cp_rbf p) - cp_T p) / cp_C p.
+Proof. intros HC V. apply cp_verify_iff in V. rewrite V. field. exact HC. Qed.
+
 End P.
